@@ -941,8 +941,8 @@ func (c *Ctx) checkRounding(fn *ssa.Function, v ssa.Value) string {
 // checkValueSum: in play.Write the argument of Rest / Note is a phi accumulating v.Float() over a range loop on instance.Values starting at 0.
 func (c *Ctx) checkValueSum(w *ssa.Function) string {
 	// the duration may be computed by an extracted helper: resolve the argument to where it is produced
-	tr := &tracer{c: c, stop: func(f *ssa.Function) bool { return f.Object() != nil && f.Object().Exported() }}
-	region := c.regionCalls(w, func(f *ssa.Function) bool { return !f.Object().Exported() })
+	tr := &tracer{c: c, stop: func(f *ssa.Function) bool { return isExportedFn(f) }}
+	region := c.regionCalls(w, func(f *ssa.Function) bool { return !isExportedFn(f) })
 	var vals []lval
 	for _, rc := range region {
 		cc := rc.call.Common()
